@@ -86,7 +86,19 @@ def classify(bs_conc):
     return "+".join(sorted(kinds)) or "digits-only"
 
 
-def h_iso(entry, tpl, mode, sep=None, year_residues=None):
+class _Stream(object):
+    """File-like input: isoparser reads it with .read()."""
+
+    def __init__(self, data):
+        self.data = data
+
+    def read(self, n=-1):
+        if n is None or n < 0:
+            return self.data
+        return self.data[:n]
+
+
+def h_iso(entry, tpl, mode, sep=None, year_residues=None, via="bytes"):
     """entry: 'date' | 'time' | 'tz' | 'dt' ; mode: 'c20' | 'c07' ; sep: None or a 1-char str."""
     from dateutil.parser import isoparser
     stubs.patch_format_elision()
@@ -113,6 +125,8 @@ def h_iso(entry, tpl, mode, sep=None, year_residues=None):
                 else:
                     ctx.split_within(S.mod(yy, 400), year_residues)
         p = isoparser(sep)
+        if via == "stream":
+            s = _Stream(s)
         r, acc = None, False
         try:
             if entry == "date":
